@@ -386,6 +386,31 @@ CHECKS["C15"] = (
 NOT_YET = {}
 
 
+# additions made after the seeded waves 6-8 (DESIGN 9.6), appended to the level text
+ADDED = {
+    "C02": "Also: sizes on narrow resonances (committed table), size parameters that are multiples of pi, distance shells at whole numbers of half wavelengths and at kr = 1e5 each judged against its own largest field, one theory object reused along a sequence of calls that differ in one argument.",
+    "C03": "Also: C_ext, C_sca and g of an oblique dimer re-derived from the full amplitude matrix of calc_scat_matrix (48 x 64 directions).",
+    "C04": "Also: particles 61 and 401 length units deep, detectors given as directions only.",
+    "C05": "Also: the radial near-field option of the cluster solver.",
+    "C06": "Also: the full product of the forms of wavelength, polarization and index (each labelled form in two channel orders), typed polarization arrays, layered spheres with labelled per-channel arrays.",
+    "C07": "Also: planes of a volume against single planes, a 131 x 130 detector against crops and point lists, crops of a 100 x 100 image under MieLens, subsets of subsets.",
+    "C08": "Also: nearly planar point lists through the lens wrapper, from_parameters of the lens theories.",
+    "C09": "Also: detectors 0.8 and 8 mm away for one-sphere clusters; rotation covariance exact up to the solver's discrete truncation states (agreeing pairs among six orientations).",
+    "C10": "Also: equal-axes spheroids at size parameters 15 and 20 in tilted orientations.",
+    "C11": "Also: reflected subtraction and numerically labelled dictionaries as wrappers.",
+    "C12": "Also: the pixels option on data that are a subset already, several constraints.",
+    "C15": "Also: explicit None for flags whose default is not None.",
+    "C16": "Also: images named like one of their axes, typed and labelled polarization arrays.",
+    "C17": "Also: nearly evenly spaced distance lists.",
+    "C18": "Also: frames of mixed types, a zero background count under a dark frame.",
+    "C19": "Also: narrow integer / float angle types in degrees, quarter turns and their multiples.",
+    "C20": "Also: voxel grids beyond 2**16 points with every voxel against the analytic inequality, radii in single / half precision.",
+}
+for _pid, _txt in ADDED.items():
+    _c = CHECKS[_pid]
+    CHECKS[_pid] = (_c[0], _c[1] + "  " + _txt) + tuple(_c[2:])
+
+
 def main():
     props = [json.loads(l) for l in open(os.path.join(VERIF,
                                                       "properties.jsonl"))]
